@@ -198,6 +198,8 @@ pub struct ExtState {
     pub n_writes: u64,
     /// (actor, path) of every put_if_not_exists that took effect
     pub applied_puts: Vec<(usize, String)>,
+    /// holder of the commit lock (`MemLock`), if any
+    pub lock_holder: Option<usize>,
 }
 
 impl ExtState {
@@ -506,6 +508,8 @@ pub enum HandlerKind {
     Rename,
     /// `ExternalManifestCommitHandler` over `MemExt`
     External,
+    /// the blanket `impl<T: CommitLock> CommitHandler for T` over `MemLock` (lock, head-check, write, release)
+    Lock,
 }
 
 impl HandlerKind {
@@ -514,6 +518,7 @@ impl HandlerKind {
             HandlerKind::CondPut => "condput",
             HandlerKind::Rename => "rename",
             HandlerKind::External => "external",
+            HandlerKind::Lock => "lock",
         }
     }
     /// A fresh handler instance for one actor. `None` = let Lance pick its default from the URI.
@@ -524,7 +529,93 @@ impl HandlerKind {
             HandlerKind::External => Some(Arc::new(ExternalManifestCommitHandler {
                 external_manifest_store: Arc::new(ext.clone()),
             })),
+            HandlerKind::Lock => Some(Arc::new(MemLock { ext: ext.clone() })),
         }
+    }
+}
+
+/// A `CommitLock` that WAITS for its holder (as the trait documents): `lock()` is a gated
+/// `LockAcquire` call that the scheduler releases only while the lock is free
+/// (`Scenario::enabled` => `lock_free`), `release()` is a gated `LockRelease`. The lock state lives
+/// next to the external-store state so that every view of one table shares it.
+#[derive(Clone, Debug)]
+pub struct MemLock {
+    pub ext: MemExt,
+}
+
+pub struct MemLease {
+    ext: MemExt,
+}
+
+pub fn lock_free(ext: &MemExt) -> bool {
+    ext.inner.lock().unwrap().lock_holder.is_none()
+}
+
+impl MemLock {
+    async fn step(ext: &MemExt, verb: Verb, acquire: bool) -> std::result::Result<(), lance_table::io::commit::CommitError> {
+        let call = Call::new(verb, "lock:tbl");
+        let ans = match &ext.gate {
+            Some(g) => g.enter(ext.actor, &call).await,
+            None => Answer::Normal,
+        };
+        let apply = |ext: &MemExt| {
+            let mut g = ext.inner.lock().unwrap();
+            if acquire {
+                assert!(g.lock_holder.is_none(), "LockAcquire released while the lock is held");
+                g.lock_holder = Some(ext.actor);
+            } else {
+                g.lock_holder = None;
+            }
+        };
+        let done = |ext: &MemExt| {
+            if let Some(g) = &ext.gate {
+                g.done(ext.actor, &call)
+            }
+        };
+        let err = |w: &str| lance_table::io::commit::CommitError::OtherError(Error::io(format!("injected fault: {w} on {}", call.norm()), location!()));
+        match ans {
+            Answer::Normal | Answer::Stale => {
+                apply(ext);
+                done(ext);
+                Ok(())
+            }
+            Answer::FailBefore => {
+                done(ext);
+                Err(err("fail-before"))
+            }
+            Answer::FailAfter => {
+                apply(ext);
+                done(ext);
+                Err(err("fail-after"))
+            }
+            Answer::CrashBefore => {
+                done(ext);
+                futures::future::pending::<()>().await;
+                unreachable!()
+            }
+            Answer::CrashAfter => {
+                apply(ext);
+                done(ext);
+                futures::future::pending::<()>().await;
+                unreachable!()
+            }
+        }
+    }
+}
+
+#[async_trait]
+impl lance_table::io::commit::CommitLock for MemLock {
+    type Lease = MemLease;
+    async fn lock(&self, _version: u64) -> std::result::Result<MemLease, lance_table::io::commit::CommitError> {
+        Self::step(&self.ext, Verb::LockAcquire, true).await?;
+        Ok(MemLease { ext: self.ext.clone() })
+    }
+}
+
+#[async_trait]
+impl lance_table::io::commit::CommitLease for MemLease {
+    async fn release(&self, _success: bool) -> std::result::Result<(), lance_table::io::commit::CommitError> {
+        MemLock::step(&self.ext, Verb::LockRelease, false).await
     }
 }
 
@@ -923,6 +1014,7 @@ pub fn is_publish_call(kind: HandlerKind, c: &Call) -> bool {
             c.verb == Verb::RenameIfNotExists
                 && c.to.as_deref().map(|t| path_class(t) == "manifest").unwrap_or(false)
         }
+        HandlerKind::Lock => c.verb == Verb::Put && path_class(&c.path) == "manifest",
         HandlerKind::External => {
             // the commit's put_if_not_exists names a staging path; the reader-side migration of a
             // not-yet-boarded version names the final path
